@@ -101,6 +101,51 @@ fn pool_thread(rx: std::sync::mpsc::Receiver<Job>, excl: Vec<String>, t0: Instan
     }
 }
 
+/// the Roto spelling of a Rust type (for the first-use race)
+trait Spell {
+    fn roto() -> String;
+}
+macro_rules! spell {
+    ($($t:ident),*) => {$( impl Spell for $t { fn roto() -> String { stringify!($t).into() } } )*};
+}
+spell!(u8, u16, u32, u64, i8, i16, i32, i64, f32, f64, char, bool);
+impl<T: Spell> Spell for Option<T> {
+    fn roto() -> String {
+        format!("Option[{}]", T::roto())
+    }
+}
+impl<T: Spell + roto::Value> Spell for roto::List<T> {
+    fn roto() -> String {
+        format!("List[{}]", T::roto())
+    }
+}
+
+type RaceJob = fn(&Runtime<NoCtx>, &Barrier) -> Result<(), String>;
+
+/// compile `fn id(x: T) -> T { x }`, wait for the other threads, ask for it as `fn(T) -> T`
+fn race_job<T: roto::Value + Spell>(rt: &Runtime<NoCtx>, barrier: &Barrier) -> Result<(), String> {
+    let ty = T::roto();
+    let pkg = host::compile(rt, &format!("fn id(x: {ty}) -> {ty} {{ x }}"));
+    barrier.wait();
+    let mut pkg = pkg.map_err(|e| format!("{ty}: does not compile: {e}"))?;
+    pkg.get_function::<fn(T) -> T>("id").map(|_| ()).map_err(|e| format!("get_function::<fn({ty}) -> {ty}>(\"id\") was refused although that is the function's signature: {e}"))
+}
+
+macro_rules! race_jobs {
+    ($($b:ty),*) => {
+        vec![$(
+            race_job::<Option<Option<Option<$b>>>> as RaceJob,
+            race_job::<Option<Option<roto::List<$b>>>>,
+            race_job::<Option<roto::List<Option<$b>>>>,
+            race_job::<Option<roto::List<roto::List<$b>>>>,
+            race_job::<roto::List<Option<Option<$b>>>>,
+            race_job::<roto::List<Option<roto::List<$b>>>>,
+            race_job::<roto::List<roto::List<Option<$b>>>>,
+            race_job::<roto::List<roto::List<roto::List<$b>>>>,
+        )*]
+    };
+}
+
 struct Probe {
     name: &'static str,
     /// must rustc reject this program?
@@ -701,40 +746,31 @@ impl W {
     /// (d) many threads compile, call and drop packages of one runtime whose registered closures
     /// and constants hold drop-tracked values: results must be right, nothing may be released
     /// while the runtime is alive and everything exactly once after it was dropped
-    /// Once per worker process (the types below are used nowhere else in the harness): eight threads ask
-    /// for a function at the same moment, each under a Rust type this process has never handed to roto
-    /// before.  Every request names the true signature and must succeed.
+    /// Once per worker process (the types below are used nowhere else in this process): in twelve rounds
+    /// eight threads ask for a function at the same moment, each under a Rust type (three layers of Option /
+    /// List around a scalar) that this process has never handed to roto before.  Every request names the
+    /// true signature and must succeed.
     fn first_use_race() -> Result<(), String> {
         static DONE: std::sync::atomic::AtomicBool = std::sync::atomic::AtomicBool::new(false);
         if DONE.swap(true, std::sync::atomic::Ordering::SeqCst) {
             return Ok(());
         }
-        const SRC: &str = "fn r0(x: i16???) -> i16??? { x }\nfn r1(x: Result[i16, i16?]) -> Result[i16, i16?] { x }\nfn r2(x: Verdict[i16?, i16]) -> Verdict[i16?, i16] { x }\nfn r3(x: List[i16??]) -> List[i16??] { x }\nfn r4(x: List[List[i16]]?) -> List[List[i16]]? { x }\nfn r5(x: Result[u16??, i16]) -> Result[u16??, i16] { x }\nfn r6(x: Verdict[i16, List[i16]]) -> Verdict[i16, List[i16]] { x }\nfn r7(x: Result[i16, i16]?) -> Result[i16, i16]? { x }\n";
-        let rt = Arc::new(Runtime::new());
+        let jobs: Vec<RaceJob> = race_jobs!(u8, u16, u32, u64, i8, i16, i32, i64, f32, f64, char, bool);
         let barrier = Arc::new(Barrier::new(8));
+        let jobs = Arc::new(jobs);
         let mut hs = Vec::new();
         for t in 0..8usize {
-            let (rt, barrier) = (rt.clone(), barrier.clone());
+            let (barrier, jobs) = (barrier.clone(), jobs.clone());
             hs.push(std::thread::spawn(move || -> Result<(), String> {
-                let pkg = host::compile(&rt, SRC);
-                // every thread reaches the barrier, whatever happened to its compilation
-                barrier.wait();
-                let mut pkg = pkg?;
-                macro_rules! ask {
-                    ($name:literal, $t:ty) => {
-                        pkg.get_function::<fn($t) -> $t>($name).map(|_| ()).map_err(|e| format!("thread {t}: get_function::<fn({0}) -> {0}>({1:?}) was refused although that is the function's signature: {e}", stringify!($t), $name))
-                    };
+                let rt = Runtime::new();
+                let mut res = Ok(());
+                for job in jobs.iter().skip(t).step_by(8) {
+                    // a failing job still went through the barrier, so the threads stay in step
+                    if let Err(e) = job(&rt, &barrier) {
+                        res = Err(format!("thread {t}: {e}"));
+                    }
                 }
-                match t {
-                    0 => ask!("r0", Option<Option<Option<i16>>>),
-                    1 => ask!("r1", Result<i16, Option<i16>>),
-                    2 => ask!("r2", roto::Verdict<Option<i16>, i16>),
-                    3 => ask!("r3", roto::List<Option<Option<i16>>>),
-                    4 => ask!("r4", Option<roto::List<roto::List<i16>>>),
-                    5 => ask!("r5", Result<Option<Option<u16>>, i16>),
-                    6 => ask!("r6", roto::Verdict<i16, roto::List<i16>>),
-                    _ => ask!("r7", Option<Result<i16, i16>>),
-                }
+                res
             }));
         }
         let mut res = Ok(());
